@@ -51,6 +51,11 @@ class ConfigState:
 
 
 _config_var = contextvars.ContextVar('config', default=ConfigState())
+# tokens of the blocks that are open in the current context, innermost last: a Config object may be
+# entered again while it is open (nested, or in several threads), so the token cannot live in the object
+_tokens_var: contextvars.ContextVar[tuple[contextvars.Token[ConfigState], ...]] = contextvars.ContextVar(
+    'config_tokens', default=()
+)
 
 
 class Config:
@@ -62,7 +67,7 @@ class Config:
         return yaml.dump(self._instance, indent=4)
 
     def __enter__(self) -> ConfigState:
-        self.token = _config_var.set(self._instance)
+        _tokens_var.set(_tokens_var.get() + (_config_var.set(self._instance),))
         return self._instance
 
     def __exit__(
@@ -71,7 +76,9 @@ class Config:
         exc_val: BaseException | None,
         exc_tb: TracebackType | None,
     ) -> None:
-        _config_var.reset(self.token)
+        *tokens, token = _tokens_var.get()
+        _tokens_var.set(tuple(tokens))
+        _config_var.reset(token)
 
     @classmethod
     def instance(cls) -> ConfigState:
